@@ -435,6 +435,14 @@ def h_diagonalize(env, N, i0, causal):
 
 def jobs(tier):
     J = []
+    if tier == 'thorough':
+        for name in ('acq', 'ipow', 'ps0', 'acq_mat', 'batch_dot', 'pauli_tokenize', 'clifford_rotate', 'clifford_rotate_signless', 'map_to_state', 'state_to_map', 'front', 'pauli_is_onsite'):
+            J.append(dict(harness=('c13', 'h_kernel'), params=dict(N=3, name=name), timeout_s=600, max_paths=5000))
+        for op in ('rotate', 'rotate_masked'):
+            J.append(dict(harness=('c13', 'h_list_ops'), params=dict(N=3, op=op), timeout_s=600))
+        for r in range(4):
+            for name in ('stabilizer_expect', 'vectorizable_stabilizer_expect'):
+                J.append(dict(harness=('c13', 'h_state_kernel'), params=dict(N=3, r=r, name=name), timeout_s=900, max_paths=5000, cost=50))
     for N in (1, 2):
         for name in KERNELS:
             J.append(dict(harness=('c13', 'h_kernel'), params=dict(N=N, name=name), timeout_s=300, max_paths=3000))
